@@ -23,10 +23,18 @@ LEGAL_NEXT = {  # the order the property states (oracle, independent of the mode
 }
 
 
-def _mk_context(case, log):
+def _mk_context(case, log, fail):
     impl.load()
     from vivarium import Component
     from vivarium.framework.engine import SimulationContext
+
+    class ListenerFailure(Exception):
+        pass
+
+    def maybe_fail(event):
+        if fail.get("on") == event:
+            fail["on"] = None
+            raise ListenerFailure(event)
 
     class Probe(Component):
         @property
@@ -38,24 +46,30 @@ def _mk_context(case, log):
             builder.event.register_listener("report", lambda e: log.append("emit:report"))
 
         def on_post_setup(self, e):
+            maybe_fail("post_setup")
             log.append("emit:post_setup")
 
         def on_initialize_simulants(self, d):
             log.append("create")
 
         def on_time_step_prepare(self, e):
+            maybe_fail("time_step__prepare")
             log.append("emit:time_step__prepare")
 
         def on_time_step(self, e):
+            maybe_fail("time_step")
             log.append("emit:time_step")
 
         def on_time_step_cleanup(self, e):
+            maybe_fail("time_step__cleanup")
             log.append("emit:time_step__cleanup")
 
         def on_collect_metrics(self, e):
+            maybe_fail("collect_metrics")
             log.append("emit:collect_metrics")
 
         def on_simulation_end(self, e):
+            maybe_fail("simulation_end")
             log.append("emit:simulation_end")
 
     SimulationContext._clear_context_cache()
@@ -94,6 +108,10 @@ class C06(Prop):
             out.append({"kind": "ctx", "start": 0, "stop": 2, "step": 1,
                         "ops": prefix + ["set:" + s for s in ENGINE_STATES if s not in LEGAL_NEXT_AFTER(prefix)] + legal[len(prefix):]})
             prefix = prefix + [nxt]
+        for ev in ENGINE_STATES[4:8]:
+            pre = ["call:setup", "call:initialize_simulants", "call:step", "fail:" + ev, "call:step"]
+            out.append({"kind": "ctx", "start": 0, "stop": 5, "step": 1,
+                        "ops": pre + ["call:" + m for m in METHODS] + ["run"] + ["set:" + s for s in ENGINE_STATES]})
         out.append({"kind": "lc", "phases": [["a", ["x", "y"], True], ["b", ["z"], False]],
                     "reqs": ["x", "y", "x", "z", "y", "z", "x", "nowhere"]})
         return out
@@ -112,7 +130,9 @@ class C06(Prop):
         while j < len(legal) and len(ops) < 40:
             if rng.random() < p_noise:
                 r = rng.random()
-                if r < 0.5:
+                if r < 0.12:
+                    ops.append("fail:" + rng.choice(ENGINE_STATES[4:8] + ["post_setup", "simulation_end"]))
+                elif r < 0.5:
                     ops.append("call:" + rng.choice(METHODS))
                 elif r < 0.6:
                     ops.append("run")
@@ -177,12 +197,15 @@ class C06(Prop):
                     out["reqs"].append(["err:" + type(e).__name__, m.current_state])
             return out
         log = []
-        sim = _mk_context(case, log)
+        fail = {"on": None}
+        sim = _mk_context(case, log, fail)
         res = []
         for op in case["ops"]:
             before = len(log)
             try:
-                if op == "run":
+                if op.startswith("fail:"):
+                    fail["on"] = op[5:]        # the probe's listener of that event raises at its next emission
+                elif op == "run":
                     sim.run()
                 elif op.startswith("call:"):
                     getattr(sim, op[5:])(**({"print_results": False} if op == "call:report" else {}))
@@ -205,7 +228,8 @@ class C06(Prop):
             return L
         L = [f"ctx new {case['start']} {case['step']} {case['stop']}"]
         for op in case["ops"]:
-            L.append("ctx run" if op == "run" else ("ctx call " + op[5:] if op.startswith("call:") else "ctx set " + op[4:]))
+            L.append("ctx run" if op == "run" else ("ctx call " + op[5:] if op.startswith("call:") else
+                                                     "ctx fail " + op[5:] if op.startswith("fail:") else "ctx set " + op[4:]))
         return L
 
     def compare(self, case, obs, replies):
@@ -256,6 +280,10 @@ class C06(Prop):
         for i, (op, (o, st, clock, ev)) in enumerate(zip(case["ops"], obs["ops"])):
             # every state visited during the op must follow the legal order; listeners only run in their own state
             visited = [e[5:] for e in ev if e.startswith("emit:")]
+            if op.startswith("fail:"):
+                if o != "ok" or st != cur or ev:
+                    fails.append({"sig": "harness", "msg": f"op #{i} {op}: {o} {st} {ev}"})
+                continue
             if op.startswith("set:"):
                 tgt = op[4:]
                 legal = tgt in LEGAL_NEXT.get(cur, [])
@@ -289,7 +317,9 @@ class C06(Prop):
                         break
                 if not path_ok:
                     fails.append({"sig": "listener-out-of-order", "msg": f"op #{i} {op} from {cur}: events {ev}"})
-                if o != "ok" and st == cur and ev:
+                refused = (op.startswith("call:") and self._first_set_illegal(op[5:], cur)) or \
+                          (op == "run" and self._first_set_illegal("step", cur))
+                if o != "ok" and refused and ev:
                     fails.append({"sig": "refused-call-ran-listener", "msg": f"op #{i} {op} from {cur}: refused but ran {ev}"})
                 if o != "ok" and op.startswith("call:") and self._first_set_illegal(op[5:], cur) and (st != cur or ev):
                     fails.append({"sig": "refused-call-changed-state", "msg": f"op #{i} {op} from {cur}: {o}, state {st}, events {ev}"})
@@ -313,6 +343,8 @@ class C06(Prop):
         if case["kind"] == "ctx":
             for op, (o, st, _, ev) in zip(case["ops"], obs["ops"]):
                 t.append(("ok:" if o == "ok" else "refused:") + op.split(":")[0])
+                if st in ENGINE_STATES[4:7] and op != "fail":
+                    t.append("stuck-in:" + st)
                 t.append("rest:" + st)
         else:
             t += ["phase-" + r.split(":")[0] for r in obs["phases"]]
